@@ -14,7 +14,7 @@ EXPLANATION = ("model Moments.v (per-component expectation formulas + _get_defau
                "integrate(key)/integral() (bit-exact in exact mode) and log_integral; oracle: Wick/Isserlis recursion in "
                "fractions.Fraction on the exact mean and covariance")
 hist = lambda d: dict(key=d["key"], mode=d["mode"], R=d["o"]["R"], D=d["o"]["D"], exact=d["exact"],
-                      dims="%s/%s/%s" % (d.get("K"), d.get("L"), d.get("M")))
+                      dims="%s/%s/%s" % (d.get("K"), d.get("L"), d.get("M")), history=(d.get("history") or {}).get("kind", "fresh"))
 nontrivial = lambda d: d["o"]["R"] * d["o"]["D"] > 1 and d["key"] not in ("x",)
 scenario = lambda d: "%s/%s/%s" % (d["key"], d["mode"], "exact" if d["exact"] else "tol")
 
@@ -85,6 +85,29 @@ def gen_case(g, key, R, D, exact, mode):
     return d
 
 
+WARM = ["x", "xx'", "(Ax+a)'(Bx+b)", "xb'xx'"]
+
+
+def add_history(g, d):
+    """the integral is taken on an object with a HISTORY: earlier integrals on the same object (any memoised moment must
+    still be right) and, for densities, an in-place update(idx, d) of some components in between.  d["o"] stays the
+    object whose moments are integrated in the end."""
+    o = d["o"]; R, D = o["R"], o["D"]
+    if o["kind"] != "pdf" or R == 1 or g.randint(0, 2) == 0:
+        d["history"] = dict(kind="warm", warm=[g.choice(WARM), d["key"]])
+        return d
+    n = g.randint(1, R)
+    idx = list(range(R)); g.shuffle(idx); idx = idx[:n]
+    before = C.gen_pdf(g, R, D, integer=True)
+    for r in range(R):
+        if r not in idx:
+            before["Sig"][r] = o["Sig"][r]; before["mu"][r] = o["mu"][r]
+    new = dict(R=n, D=D, Sig=[o["Sig"][r] for r in idx], mu=[o["mu"][r] for r in idx], diag=False)
+    idx = [(r - R if g.randint(0, 2) == 0 else r) for r in idx]          # negative indices address from the end
+    d["history"] = dict(kind="update", warm=[g.choice(WARM), d["key"]], before=before, new=new, idx=idx)
+    return d
+
+
 def gen_descs(g, tier):
     q = tier == "quick"
     out = []
@@ -99,8 +122,13 @@ def gen_descs(g, tier):
                 out.append(C.J(gen_case(g, key, R, D, True, mode)))
             if key not in ("x", "xx'"):
                 out.append(C.J(gen_case(g, key, R, min(D, 4), False, modes[i % 4])))
+    # histories: every key once on an object that was integrated before and (densities) updated in place
+    for key in keys:
+        out.append(C.J(add_history(g, gen_case(g, key, 3, 2, True, "shared"))))
+        out.append(C.J(add_history(g, gen_case(g, key, 2, 3, key in ("x", "xx'"), "per"))))
     for _ in range(0 if q else 1500):
-        out.append(C.J(gen_case(g, g.choice(keys), g.randint(1, 3), g.randint(1, 6), bool(g.randint(0, 3)), g.choice(modes))))
+        d = gen_case(g, g.choice(keys), g.randint(1, 3), g.randint(1, 6), bool(g.randint(0, 3)), g.choice(modes))
+        out.append(C.J(add_history(g, d) if g.randint(0, 3) == 0 else d))
     return out
 
 
@@ -226,6 +254,9 @@ def coq_term(d):
     d = C.U(d)
     o = d["o"]; R = o["R"]; key = d["key"]
     u = coq_obj(o)
+    h = d.get("history")
+    if h and h["kind"] == "update":
+        u = "(pdf_update %s %s %s)" % (gtlib.cints(h["idx"]), C.coq_pdf(h["before"]), C.coq_pdf(h["new"]))
     sh = dims_out(d)
     dump = {"v": "dV %d" % sh[1] if sh[0] == "v" else "", "m": "dM %d %d" % (sh[1], sh[2]) if sh[0] == "m" else "", "s": "dF"}[sh[0]]
     if key == "x":
@@ -272,9 +303,21 @@ def run_impl(d):
     import numpy as np
     d = C.U(d)
     o = d["o"]; R = o["R"]
-    obj = C.impl_pdf(o) if o["kind"] == "pdf" else C.impl_measure(o)
+    h = d.get("history")
+    if h and h["kind"] == "update":
+        obj = C.impl_pdf(h["before"])
+    else:
+        obj = C.impl_pdf(o) if o["kind"] == "pdf" else C.impl_measure(o)
     ob = Obs()
     fails = []
+    if h:
+        jnp = gtlib.impl()["jnp"]
+        for wk in h["warm"]:                      # earlier integrals on the same object
+            dw = dict(d, key=wk) if wk == d["key"] else None
+            kw = impl_kwargs(d) if wk == d["key"] else ({"b_vec": jnp.ones(o["D"])} if wk == "xb'xx'" else {})
+            obj.integrate(wk, **kw)
+        if h["kind"] == "update":
+            obj.update(jnp.array(h["idx"]), C.impl_pdf(h["new"]))
     mass = np.asarray(obj.integral(), dtype=float)
     ob.add("log_integral", obj.log_integral())
     val = np.asarray(obj.integrate(d["key"], **impl_kwargs(d)), dtype=float)
